@@ -48,8 +48,15 @@ type tierCfg struct {
 var tiers = map[string][2]tierCfg{}
 
 func tierFor(prop, tier string) tierCfg {
-	q := tierCfg{runs: 12000, wallS: 100}
-	t := tierCfg{runs: 400000, wallS: 900}
+	// run counts are fixed per tier (reproducible for a given VERIF_SEED); the wall caps are safety nets
+	q := tierCfg{runs: 200000, wallS: 150}
+	t := tierCfg{runs: 6000000, wallS: 1200}
+	switch prop {
+	case "C02", "C13":
+		q.runs, t.runs = 100000, 3000000
+	case "C11":
+		q.runs, t.runs = 120000, 3000000
+	}
 	if v, ok := tiers[prop]; ok {
 		q, t = v[0], v[1]
 	}
